@@ -287,6 +287,10 @@ func (m *model) key(b byte) {
 		m.buf, m.mode = "", "normal"
 		return
 	}
+	if b == 127 && m.mode == "opening" {
+		// the buffer holds the link being opened: Backspace only shortens what is displayed
+		return
+	}
 	if b == 127 {
 		if m.buf == "" {
 			m.mode = "normal"
